@@ -580,6 +580,12 @@ def n8(ctx, rep):
             ks = [x for x in vt.walk(key)] if key is not None else []
             ok = any(isinstance(x, dict) and x.get('k') == 'atom' and ((x.get('root') in cparams and not x.get('path')) or (x.get('root') == 'self' and (x.get('path') or [None])[-1] == 'crate_name')) for x in ks) or any(isinstance(x, dict) and x.get('k') == 'field' and x.get('name') == 'base_crate' for x in ks) \
                 or any(isinstance(x, dict) and x.get('k') == 'atom' and (x.get('path') or [None])[-1] == 'base_crate' for x in ks)
+            if not ok:
+                # the key is an element of a local collection that is filled, in this function, with nothing but `<import>.base_crate`
+                names = {str(x.get('name')) for x in ks if isinstance(x, dict) and x.get('k') == 'var' and x.get('name')}
+                fills = [c2 for c2 in f['calls'] if c2.get('f') in ('insert', 'push') and c2.get('recv') is not None and isinstance(vt.unvar(c2['recv']), dict)
+                         and (str((c2['recv'] if isinstance(c2['recv'], dict) else {}).get('name')) in names or str(c2.get('recv_text') or '').replace(' ', '').lstrip('&').replace('mut', '') in names)]
+                ok = bool(fills) and all(any(isinstance(y, dict) and ((y.get('k') == 'field' and y.get('name') == 'base_crate') or (y.get('k') == 'atom' and (y.get('path') or [None])[-1] == 'base_crate')) for a_ in c2.get('args', []) for y in vt.walk(a_)) for c2 in fills)
             rep.check(ok, 'N8', f"resolver:key:{vt.show(key)[-40:].replace(' ', '')}", 'addressed by the importing crate or the current crate', f"{f['qual']} looks the new name up under `{vt.show(key)[:60]}` — neither the crate of an import of this type name nor the referencing crate", {'file': f['file'], 'line': c.get('line')})
     for lp in f.get('loops', []):
         pass
